@@ -37,6 +37,7 @@ class Fn:
         self.nb = nb_param            # name of the neighbourhood parameter (or None)
         self.methods = methods        # python method name -> lean function name
         self.grain_var = None
+        self.digit_locals = set()
         args = [a.arg for a in node.args.args if a.arg != "self"]
         self.params = args
 
@@ -81,6 +82,8 @@ class Fn:
         if isinstance(n, ast.Call):
             return self.call(n)
         if isinstance(n, ast.Attribute):
+            if isinstance(n.value, ast.Name) and n.value.id == self.nb and n.attr == "size":
+                return "(V.int env.nbSize)"
             if isinstance(n.value, ast.Name) and n.value.id == "self" and n.attr in ENV_ATTRS:
                 return ENV_ATTRS[n.attr]
             if isinstance(n.value, ast.Name) and n.value.id == self.grain_var:
@@ -107,6 +110,13 @@ class Fn:
 
     def call(self, n):
         f = n.func
+        if isinstance(f, ast.Name) and f.id == "len" and len(n.args) == 1 and isinstance(n.args[0], ast.Name) \
+                and n.args[0].id in self.digit_locals:
+            return "(V.int d_%s.length)" % n.args[0].id
+        if isinstance(f, ast.Name) and f.id == "int" and len(n.args) == 2 and isinstance(n.args[0], ast.Subscript) \
+                and isinstance(n.args[0].value, ast.Name) and n.args[0].value.id in self.digit_locals:
+            # int(s[i], k): the digit value (every digit of a base-k string is a valid base-k digit)
+            return "(V.digitAt d_%s %s)" % (n.args[0].value.id, self.E(n.args[0].slice))
         if isinstance(f, ast.Attribute) and isinstance(f.value, ast.Name):
             if f.value.id == "np" and f.attr == "sum" and len(n.args) == 1 and isinstance(n.args[0], ast.Name) \
                     and n.args[0].id == self.nb:
@@ -148,9 +158,33 @@ class Fn:
             raise Unsupported("comparison " + type(op).__name__)
         return "(V.truthy %s)" % self.E(n)
 
+    # ---------------- digit strings (np.base_repr(x, base=k).zfill(w))
+    def DE(self, n):
+        """(setup lines, Lean expr of type List Nat) for an expression denoting a digit string, or None."""
+        if isinstance(n, ast.Name) and n.id in self.digit_locals:
+            return [], "d_" + n.id
+        if isinstance(n, ast.Call) and isinstance(n.func, ast.Attribute) and n.func.attr == "zfill" and len(n.args) == 1:
+            inner = self.DE(n.func.value)
+            if inner:
+                return inner[0], "(V.zfill %s %s)" % (inner[1], self.E(n.args[0]))
+        if isinstance(n, ast.Call) and isinstance(n.func, ast.Attribute) and isinstance(n.func.value, ast.Name) \
+                and n.func.value.id == "np" and n.func.attr == "base_repr" and len(n.args) >= 1:
+            base = n.args[1] if len(n.args) > 1 else next((k.value for k in n.keywords if k.arg == "base"), None)
+            if base is None or len(n.args) > 2 or any(k.arg != "base" for k in n.keywords):
+                raise Unsupported("np.base_repr form")
+            self.kd = getattr(self, "kd", 0) + 1
+            r = "b_%d" % self.kd
+            setup = ["let %s := V.baseRepr %s %s" % (r, self.E(n.args[0]), self.E(base)),
+                     "if %s.isNone then" % r, "  return V.err"]
+            return setup, "(%s.getD [])" % r
+        return None
+
     # ---------------- statements
     def assigned(self, body, acc):
         for s in body:
+            if isinstance(s, ast.Assign) and len(s.targets) == 1 and isinstance(s.targets[0], ast.Name) \
+                    and not self.object_mode and self.DE(s.value):
+                continue
             if isinstance(s, ast.Assign):
                 for t in s.targets:
                     if isinstance(t, ast.Name):
@@ -178,6 +212,14 @@ class Fn:
             if isinstance(s, ast.Assign):
                 if len(s.targets) != 1:
                     raise Unsupported("multiple assignment")
+                de = self.DE(s.value) if isinstance(s.targets[0], ast.Name) else None
+                if de:
+                    if ind != 1:
+                        raise Unsupported("digit string bound inside a branch")
+                    out += [pad + l for l in de[0]]
+                    out.append("%slet d_%s := %s" % (pad, s.targets[0].id, de[1]))
+                    self.digit_locals.add(s.targets[0].id)
+                    continue
                 out.append("%sv_%s := %s" % (pad, s.targets[0].id, self.E(s.value)))
             elif isinstance(s, ast.AugAssign):
                 op = {ast.Add: "V.add", ast.Sub: "V.sub", ast.Mult: "V.mul"}.get(type(s.op))
@@ -575,6 +617,7 @@ TARGETS = [
     ("ctrblCall", "ctrbl_rule.py", "CTRBLRule", "__call__", "n", {}),
     ("sandpileInBoundary", "sandpile.py", "Sandpile", "_is_in_boundary", None, {}),
     ("sandpileCall", "sandpile.py", "Sandpile", "__call__", "n", {"_is_in_boundary": "sandpileInBoundary"}),
+    ("totalistic", "ca_functions.py", None, "totalistic_rule", "neighbourhood", {}),
 ]
 
 ASYNC = dict(type="AsyncObj", shuffle="_update_order", inner="_apply_rule",
@@ -601,6 +644,7 @@ OBJ_TARGETS = [
 ]
 
 HEADER = '''import Cpl.PyV
+import Cpl.PyStr
 /-! GENERATED by tools/py2lean.py from /repo/cellpylib on every run. Do not edit. -/
 
 namespace Cpl.Gen
@@ -610,6 +654,7 @@ open Cpl
 structure Env where
   nb : Nat → Nat → Int := fun _ _ => 0
   nbSum : Int := 0
+  nbSize : Int := 0                  -- neighbourhood.size (masked cells included)
   tableMem : V → Bool := fun _ => false
   tableGet : V → V := fun _ => V.none
   K : Int := 0
